@@ -49,6 +49,12 @@ type plan struct {
 }
 
 var verifDir string
+
+// repoDir is the tree the engines are built from: /repo, unless VERIF_REPO
+// names a scratch copy (used to evaluate seeded changes without touching
+// /repo); outDir receives evidence and replays (VERIF_OUT, default /verif).
+var repoDir = "/repo"
+var outDir string
 var scratch string
 
 func main() {
@@ -81,6 +87,15 @@ func main() {
 		verifDir = filepath.Dir(filepath.Dir(exe))
 	}
 	setEnv()
+	if d := os.Getenv("VERIF_REPO"); d != "" {
+		repoDir = d
+	}
+	os.Setenv("VERIF_SCHEMA_DIR", filepath.Join(repoDir, "docs/api/schemas"))
+	outDir = verifDir
+	if d := os.Getenv("VERIF_OUT"); d != "" {
+		outDir = d
+		os.MkdirAll(outDir, 0755)
+	}
 	scratch = os.Getenv("VERIF_SCRATCH")
 	if scratch == "" {
 		base := "/dev/shm"
@@ -171,11 +186,24 @@ func planIDs() []string {
 }
 
 func buildEngineA() error {
-	// go.sum follows /repo's
-	if b, err := os.ReadFile("/repo/go.sum"); err == nil {
-		os.WriteFile(filepath.Join(verifDir, "go.sum"), b, 0644)
+	// go.sum follows the repo's
+	sum, _ := os.ReadFile(filepath.Join(repoDir, "go.sum"))
+	args := []string{"test", "-c", "-tags", "verif", "-o", filepath.Join(scratch, "enga.test")}
+	if repoDir == "/repo" {
+		if sum != nil {
+			os.WriteFile(filepath.Join(verifDir, "go.sum"), sum, 0644)
+		}
+	} else {
+		mod, err := os.ReadFile(filepath.Join(verifDir, "go.mod"))
+		if err != nil {
+			return err
+		}
+		alt := strings.Replace(string(mod), "=> /repo", "=> "+repoDir, 1)
+		os.WriteFile(filepath.Join(scratch, "alt.mod"), []byte(alt), 0644)
+		os.WriteFile(filepath.Join(scratch, "alt.sum"), sum, 0644)
+		args = append(args, "-modfile="+filepath.Join(scratch, "alt.mod"))
 	}
-	cmd := exec.Command(goTool(), "test", "-c", "-tags", "verif", "-o", filepath.Join(scratch, "enga.test"), "./enga")
+	cmd := exec.Command(goTool(), append(args, "./enga")...)
 	cmd.Dir = verifDir
 	out, err := cmd.CombinedOutput()
 	if err != nil {
@@ -442,8 +470,8 @@ func writeEvidenceA(p *plan, tier string, base uint64, sum *enga.Summary, perSta
 	}
 	ev["coverage"] = cov
 	b, _ := json.MarshalIndent(ev, "", " ")
-	os.MkdirAll(filepath.Join(verifDir, "evidence"), 0755)
-	os.WriteFile(filepath.Join(verifDir, "evidence", evName(p)+".json"), b, 0644)
+	os.MkdirAll(filepath.Join(outDir, "evidence"), 0755)
+	os.WriteFile(filepath.Join(outDir, "evidence", evName(p)+".json"), b, 0644)
 }
 
 func evName(p *plan) string {
